@@ -122,7 +122,7 @@ func wrappers(kind wrapKind, n int, p *probe) []callable {
 	}
 	switch kind {
 	case wOnce:
-		ao := &adt.Once[int]{}
+		ao, ao3 := &adt.Once[int]{}, &adt.Once[int]{}
 		ao2 := adt.NewOnce(func() int { v, _ := p.run(); return v })
 		mn := adt.Mnemonize(func() int { v, _ := p.run(); return v })
 		fo := ft.Once(func() { _, _ = p.run() })
@@ -132,6 +132,7 @@ func wrappers(kind wrapKind, n int, p *probe) []callable {
 			R("Processor.Once", processor.Once()), H("Handler.Once", handler.Once()), F("Future.Once", future.Once()),
 			F("adt.Once.Do+Resolve", func() int { ao.Do(func() int { v, _ := p.run(); return v }); return ao.Resolve() }),
 			F("adt.NewOnce.Resolve", ao2.Resolve), F("adt.Mnemonize", mn),
+			{name: "adt.Once.Do", call: func(context.Context) (int, error) { ao3.Do(func() int { v, _ := p.run(); return v }); return 0, nil }},
 			{name: "ft.Once", call: func(context.Context) (int, error) { fo(); return 0, nil }},
 			F("ft.OnceDo", fod),
 			W("Worker.Lock.Once", worker.Lock().Once()), W("Worker.Once.Lock", worker.Once().Lock()),
